@@ -205,6 +205,29 @@ pub fn run(ctx: &mut Ctx) {
         }
         judge_seq(ctx, &s, ds, de, "random-long");
     }
+    // many inert tags in one scope: k unclosed openers / stray closers, then well-formed elements
+    // (a parser that bounds its work by "depth" must not lose the elements behind them)
+    for (j, k) in [10usize, 127, 128, 129, 300, 1000].iter().enumerate() {
+        if j as u64 % n != shard % n.min(6) && n > 1 {
+            continue;
+        }
+        for (ds, de) in [("<", ">"), ("/* <", "> */")] {
+            for inert in ["u", "/z", "u q='1'"] {
+                let mut s = String::new();
+                for i in 0..*k {
+                    s.push_str(&format!("{ds}{inert}{de}"));
+                    if i % 7 == 0 {
+                        s.push('x');
+                    }
+                }
+                s.push_str(&format!("{ds}a{de}y{ds}b{de}z{ds}/b{de}{ds}/a{de}{ds}c{de}w{ds}/c{de}"));
+                judge_seq(ctx, &s, ds, de, "many-inert-tags");
+                // the same, with the tail repeated (hundreds of well-formed siblings)
+                let tail = format!("{ds}a{de}x{ds}/a{de}").repeat(*k);
+                judge_seq(ctx, &format!("{s}{tail}"), ds, de, "many-siblings");
+            }
+        }
+    }
     ctx.note("rule", json!("distinct token sequences with >= 2 tokens whose pairs, flattening and parent links all equal the stack rule"));
 }
 
